@@ -7,11 +7,16 @@ import EzdxfVerif.Lemmas.Doc
 import EzdxfVerif.Lemmas.DocOwner
 import EzdxfVerif.Lemmas.DocEffects
 import EzdxfVerif.Lemmas.DocReload
+import EzdxfVerif.Lemmas.DocLink
+import EzdxfVerif.Lemmas.DocHandles
+import EzdxfVerif.Lemmas.DocExplode
+import EzdxfVerif.Lemmas.DocNames
 
 namespace EzdxfVerif.Props.C05
 open EzdxfVerif.Doc
 
-/-- a request the API rejects leaves the document unchanged (all 19 operations) -/
+/-- a request the API rejects leaves the document unchanged (all 29 operations, Session 3: linked parents, explode,
+    audit, table entries, groups included) -/
 theorem rejected_unchanged (s : State) (op : Op) (e : Err) (h : (step s op).2 = .err e) :
     (step s op).1 = s := Doc.rejected_unchanged s op e h
 
@@ -24,6 +29,17 @@ theorem step_grow (s : State) (op : Op) : Grow s (step s op).1 := Doc.step_grow 
     and below the handle generator -/
 theorem handles_never_reused (s : State) (ops : List Op) (h : HInv s) : HInv (run s ops) :=
   Doc.handles_never_reused s ops h
+
+/-- (Session 3) an accepted operation issues pairwise distinct handles - for the entity, its sub-entities (VERTEX,
+    ATTRIB, SEQEND), every copy made by explode, a block record, a GROUP object - all inside the window
+    [generator before, generator after) -/
+theorem issued_window (s : State) (op : Op) (hok : (step s op).2 = .ok) :
+    (issued op).Nodup ∧ ∀ h ∈ issued op, s.next ≤ h ∧ h < (step s op).1.next := Doc.issued_window s op hok
+
+/-- (Session 3) never reused, sub-entities and objects included: in every history from EVERY state (no invariant
+    needed, damaged documents included) all handles issued by the accepted operations are pairwise distinct -/
+theorem issued_never_reused (s : State) (ops : List Op) : (issuedAll s ops).Nodup :=
+  Doc.issued_never_reused ops s
 
 /-- one step preserves the structural invariant (unique block-record keys below the generator; every
     handle at most once over ALL entity spaces; spaces hold only created entities), for
@@ -40,6 +56,12 @@ theorem inv_reachable (s : State) (ops : List Op) (h : DocInv s) (hok : HistOk s
 theorem owner_consistent (s : State) (ops : List Op) (h : DocInv s) (ho : OwnerInv s) (hok : HistOk s ops) :
     OwnerInv (run s ops) := Doc.owner_inv_reachable s ops h ho hok
 
+/-- the converse (Session 3): in every reachable state a live entity that reports an owner is listed in the entity
+    space of exactly that owner (with `owner_consistent` and `inv_reachable`: `entity.get_layout()` and the content of
+    the layouts describe the same relation, every entity in at most one layout) -/
+theorem linked_listed (s : State) (ops : List Op) (h : DocInv s) (hl : LinkInv s) (hok : HistOk s ops) :
+    LinkInv (run s ops) := Doc.link_inv_reachable s ops h hl hok
+
 /-- reference model "a layout is an ordered list": creation appends to that layout only -/
 theorem spec_add (s : State) (k h seed : Nat) (sp : List Nat) (hsp : spaceOf s k = some sp)
     (hf : freshOk s [h] seed = true) (hfresh : h ∉ hs s)
@@ -48,6 +70,38 @@ theorem spec_add (s : State) (k h seed : Nat) (sp : List Nat) (hsp : spaceOf s k
     content (step s (.add k h seed)).1 k = content s k ++ [h] ∧
     ∀ k', k' ≠ k → content (step s (.add k h seed)).1 k' = content s k' :=
   Doc.spec_add s k h seed sp hsp hf hfresh hknown
+
+/-- (Session 3) a linked parent (POLYLINE+VERTEX…+SEQEND, INSERT+ATTRIB…+SEQEND) is appended to the content of its layout
+    only; its sub-entities are not content of any layout -/
+theorem spec_addL (s : State) (k : Nat) (r : Option Str) (h : Nat) (subs : List Nat) (seed : Nat) (hi : DocInv s)
+    (hk : (spaceOf s k).isSome = true) (hf : freshOk s (h :: subs) seed = true) :
+    (step s (.addL k r h subs seed)).2 = .ok ∧
+    content (step s (.addL k r h subs seed)).1 k = content s k ++ [h] ∧
+    ∀ k', k' ≠ k → content (step s (.addL k r h subs seed)).1 k' = content s k' :=
+  Doc.spec_addL s k r h subs seed hi hk hf
+
+/-- (Session 3) `entity.copy_to_layout(target)` of any live entity, linked parents included: the copy (fresh handle,
+    fresh sub-entity handles) is appended to the target, the source stays where it is, nothing else changes -/
+theorem spec_copy (s : State) (e k h : Nat) (subs : List Nat) (seed : Nat) (x : Ent) (hi : DocInv s)
+    (hx : findEnt s e = some x) (hal : x.alive = true) (hlen : subs.length = x.subs.length)
+    (hk : (spaceOf s k).isSome = true) (hf : freshOk s (h :: subs) seed = true) :
+    (step s (.copy e k h subs seed)).2 = .ok ∧ h ≠ e ∧
+    content (step s (.copy e k h subs seed)).1 k = content s k ++ [h] ∧
+    ∀ k', k' ≠ k → content (step s (.copy e k h subs seed)).1 k' = content s k' :=
+  Doc.spec_copy s e k h subs seed x hi hx hal hlen hk hf
+
+/-- (Session 3) `insert.explode()` accepted, in a state with the invariants of reachable states: the INSERT is dead and
+    gone from its layout; the copies of the block content (fresh handles, block order; nested INSERTs stay INSERTs)
+    followed by one TEXT per attached ATTRIB (which takes over the handle of the ATTRIB) are appended to that layout;
+    every other layout and block - the exploded block definition included - shows what it showed -/
+theorem spec_explode (s : State) (e : Nat) (news : List (Nat × List Nat)) (seed : Nat) (hi : DocInv s) (hl : LinkInv s)
+    (hok : (step s (.explode e news seed)).2 = .ok) :
+    ∃ x k, findEnt s e = some x ∧ x.owner = some k ∧
+      isAlive (step s (.explode e news seed)).1 e = false ∧
+      content (step s (.explode e news seed)).1 k =
+        (content s k).erase e ++ (news.map (·.1) ++ x.subs.take (x.subs.length - 1)) ∧
+      ∀ k', k' ≠ k → content (step s (.explode e news seed)).1 k' = content s k' :=
+  Doc.spec_explode s e news seed hi hl hok
 
 /-- `entity.destroy()` removes the entity from what every layout shows and nothing else, although
     the dead object stays in the entity space until the next purge -/
@@ -83,6 +137,53 @@ theorem spec_move (s : State) (k1 e k2 : Nat) (hne : k1 ≠ k2) (hok : (step s (
     ∀ k', k' ≠ k1 → k' ≠ k2 → content (step s (.move k1 e k2)).1 k' = content s k' :=
   Doc.spec_move s k1 e k2 hne hok
 
+/-- (Session 3) name lookups of table entries = "a table is a set of case-insensitive keys": `table.add(name)` rejects
+    an existing name in any spelling and changes nothing, otherwise exactly this key is new (LTYPE, STYLE, DIMSTYLE, APPID,
+    UCS, VIEW) -/
+theorem spec_add_entry (s : State) (t : Nat) (name : Str) (seed : Nat) (hseed : s.next ≤ seed) :
+    (hasEntry s t name = true → step s (.addEntry t name seed) = (s, .err .dxfTableEntryError)) ∧
+    (hasEntry s t name = false → (step s (.addEntry t name seed)).2 = .ok ∧
+      ∀ t' n', hasEntry (step s (.addEntry t name seed)).1 t' n' =
+        (hasEntry s t' n' || (t' == t && lower n' == lower name))) := Doc.spec_addEntry s t name seed hseed
+
+/-- (Session 3) `table.remove(name)`: an unknown name is rejected and nothing changes, otherwise exactly this key is gone
+    (in any reachable state: `TabInv`, see `table_keys_unique`) -/
+theorem spec_remove_entry (s : State) (t : Nat) (name : Str) (hi : TabInv s) :
+    (hasEntry s t name = false → step s (.delEntry t name) = (s, .err .dxfTableEntryError)) ∧
+    (hasEntry s t name = true → (step s (.delEntry t name)).2 = .ok ∧
+      ∀ t' n', hasEntry (step s (.delEntry t name)).1 t' n' =
+        (hasEntry s t' n' && !(t' == t && lower n' == lower name))) := Doc.spec_delEntry s t name hi
+
+/-- (Session 3) `table.duplicate_entry(a, b)`: unknown source rejected; otherwise `b` exists afterwards, no other
+    lookup changes -/
+theorem spec_duplicate_entry (s : State) (t : Nat) (a b : Str) (seed : Nat) (hseed : s.next ≤ seed) :
+    (hasEntry s t a = false → step s (.dupEntry t a b seed) = (s, .err .dxfTableEntryError)) ∧
+    (hasEntry s t a = true → (step s (.dupEntry t a b seed)).2 = .ok ∧
+      ∀ t' n', hasEntry (step s (.dupEntry t a b seed)).1 t' n' =
+        (hasEntry s t' n' || (t' == t && lower n' == lower b))) := Doc.spec_dupEntry s t a b seed hseed
+
+/-- (Session 3) group names are a case-insensitive name map: `doc.groups.new(name)` rejects an existing name in any spelling
+    and changes nothing, otherwise appends exactly one empty group of that name -/
+theorem spec_new_group (s : State) (name : Str) (h seed : Nat) (hf : freshOk s [h] seed = true) :
+    (hasGroup s name = true → step s (.newGroup name h seed) = (s, .err .dxfValueError)) ∧
+    (hasGroup s name = false → (step s (.newGroup name h seed)).2 = .ok ∧
+      (step s (.newGroup name h seed)).1.groups = s.groups ++ [(name, h, [])] ∧
+      ∀ n', hasGroup (step s (.newGroup name h seed)).1 n' = (hasGroup s n' || lower n' == lower name)) :=
+  Doc.spec_newGroup s name h seed hf
+
+/-- (Session 3) `doc.groups.delete(name)`: an unknown name is rejected and nothing changes, otherwise the group is gone under
+    every spelling and no other lookup changes (the code needed fix d899da2f0 for this) -/
+theorem spec_delete_group (s : State) (name : Str) :
+    (hasGroup s name = false → step s (.delGroup name) = (s, .err .dxfValueError)) ∧
+    (hasGroup s name = true → (step s (.delGroup name)).2 = .ok ∧
+      ∀ n', hasGroup (step s (.delGroup name)).1 n' = (hasGroup s n' && !(lower n' == lower name))) :=
+  Doc.spec_delGroup s name
+
+/-- (Session 3) in every reachable state every (table, key) pair is stored once; only add / remove / duplicate entry
+    and save+reload change the tables at all (`Doc.step_tabs`) -/
+theorem table_keys_unique (s : State) (ops : List Op) (h : TabInv s) : TabInv (run s ops) :=
+  Doc.tab_inv_reachable s ops h
+
 /-- in every reachable state a live entity is stored in the entity database (no history, however it mixes
     destroy / purge / reload, leaves a live entity outside the database) -/
 theorem live_in_database (s : State) (ops : List Op) (hd : DbInv s) : DbInv (run s ops) :=
@@ -104,12 +205,23 @@ theorem reload_twice (s : State) (seed seed2 : Nat) (ho : OwnerInv s) (hd : DbIn
       s2.layouts = s1.layouts ∧ s2.layers = s1.layers ∧ s2.next = seed2 :=
   Doc.reload_twice s seed seed2 ho hd hseed hseed2
 
+/-- (Session 3) `reload_twice` for the new fields: a second save/load cycle changes neither the table entries (the required
+    ones are back after the first) nor the groups (invalid members purged / mixed groups cleared by the first) -/
+theorem reload_twice_tables_groups (s : State) (seed seed2 : Nat) (hd : DbInv s) (hseed : s.next ≤ seed)
+    (hseed2 : seed ≤ seed2) :
+    let s1 := (step s (.reload seed)).1
+    let s2 := (step s1 (.reload seed2)).1
+    s2.tabs = s1.tabs ∧ s2.groups = s1.groups := Doc.reload_twice_tabs_groups s seed seed2 hd hseed hseed2
+
 /-! ### non-vacuity: the state of a fresh `ezdxf.new()` document, and a history on it -/
 
 def fresh : State :=
-  ⟨[], [(23, []), (27, [])], [(lower modelSpaceName, modelSpaceName, 23), (lower paperSpaceName, paperSpaceName, 27)],
-   [⟨modelKey, ofString "Model", 23, 0⟩, ⟨upper (ofString "Layout1"), ofString "Layout1", 27, 1⟩],
-   [[48], ofString "defpoints"], 47⟩
+  { ents := [], spaces := [(23, []), (27, [])],
+    blocks := [(lower modelSpaceName, modelSpaceName, 23), (lower paperSpaceName, paperSpaceName, 27)],
+    layouts := [⟨modelKey, ofString "Model", 23, 0⟩, ⟨upper (ofString "Layout1"), ofString "Layout1", 27, 1⟩],
+    layers := [[48], ofString "defpoints"], next := 47,
+    tabs := [(1, ofString "byblock"), (1, ofString "bylayer"), (1, ofString "continuous"), (2, ofString "standard"),
+             (3, ofString "standard"), (4, ofString "acad")] }
 
 example : DocInv fresh := by
   simp [DocInv, HInv, SInv, hs, keys, allH, fresh]
@@ -120,11 +232,37 @@ example : OwnerInv fresh := by
 example : DbInv fresh := by
   simp [DbInv, fresh]
 
+example : LinkInv fresh := by
+  intro h ha; simp [isAlive, findEnt, fresh] at ha
+
+example : TabInv fresh := by
+  simp [TabInv, fresh, ofString]
+
+#guard hasGroup (run fresh [.newGroup (ofString "g1") 47 48]) (ofString "G1")
+#guard !hasGroup (run fresh [.newGroup (ofString "g1") 47 48, .delGroup (ofString "G1")]) (ofString "g1")
+#guard freshOk fresh [47] 48
+#guard hasEntry (run fresh [.addEntry 2 (ofString "Abc") 50]) 2 (ofString "aBC")
+#guard (step (run fresh [.addEntry 2 (ofString "Abc") 50]) (.addEntry 2 (ofString "ABC") 51)).2 == .err .dxfTableEntryError
+#guard !hasEntry (run fresh [.addEntry 2 (ofString "Abc") 50, .delEntry 2 (ofString "ABC")]) 2 (ofString "abc")
+
 example : HistOk fresh [.add 23 47 48, .unlink 23 47, .addex 27 47] := by
   simp [HistOk, OpOk, step, newEnt, unlinkCore, spaceOf, freshOk, fresh, isAlive, findEnt, setSpace, allH, setEnt]
 
 #guard (run fresh [.add 23 47 48, .add 27 48 49, .move 27 48 23, .destroy 47, .newBlock (ofString "B1") 49 52,
-    .copy 48 49 52 53, .purge, .del 23 48]).spaces == [(23, []), (27, []), (49, [52])]
+    .copy 48 49 52 [] 53, .purge, .del 23 48]).spaces == [(23, []), (27, []), (49, [52])]
+
+-- explode is accepted on a reachable state: block B with a LINE and a POLYLINE, INSERT with one ATTRIB in the modelspace
+def exploded : State := run fresh [.newBlock (ofString "B") 47 50, .add 47 50 51, .addL 47 none 51 [53, 52] 54,
+    .add 23 54 55, .addL 23 (some (ofString "b")) 55 [56, 57] 58]
+#guard (step exploded (.explode 55 [(58, []), (59, [61, 60])] 62)).2 == .ok
+#guard content (step exploded (.explode 55 [(58, []), (59, [61, 60])] 62)).1 23 == [54, 58, 59, 56]
+#guard content (step exploded (.explode 55 [(58, []), (59, [61, 60])] 62)).1 47 == [50, 51]
+
+#guard content (run fresh [.addL 23 none 47 [49, 50, 48] 51, .copy 47 27 51 [53, 54, 52] 55]) 27 == [51]
+#guard freshOk fresh (47 :: [49, 50, 48]) 51
+
+#guard issuedAll fresh [.add 23 47 48, .addL 23 none 48 [50, 51, 49] 52, .copy 48 27 52 [54, 55, 53] 56,
+    .add 23 40 57, .newGroup (ofString "G") 57 58] == [47, 48, 50, 51, 49, 52, 54, 55, 53, 57]
 
 -- move is accepted on a reachable state, and an unlinked entity does not come back from a reload
 #guard (step (run fresh [.add 23 47 48, .add 27 48 49]) (.move 27 48 23)).2 == .ok
